@@ -9,6 +9,7 @@ import (
 	"strconv"
 	"strings"
 	"sync"
+	"sync/atomic"
 	"time"
 )
 
@@ -23,13 +24,13 @@ type harnessSummary struct {
 	Pkg            string            `json:"pkg"`
 	Solver         string            `json:"solver"`
 	Desc           string            `json:"what"`
-	Shards         int               `json:"shards"`
+	Shards         int               `json:"subtree_tasks"`
 	Complete       bool              `json:"complete"`
 	Paths          int               `json:"paths"`
 	Decisions      int               `json:"decisions"`
 	Queries        int               `json:"solver_queries"`
 	SolverSec      float64           `json:"solver_time_s"`
-	WallSecMax     float64           `json:"wall_s_slowest_shard"`
+	WallSecMax     float64           `json:"cpu_wall_s_all_workers"`
 	Asserts        int               `json:"assertion_checks"`
 	Discharged     int               `json:"assertion_checks_unsat"`
 	Violations     int               `json:"violating_paths"`
@@ -94,19 +95,7 @@ func runCheck(args []string) int {
 		os.Remove(evPath)
 	}
 
-	// ---- run all shards on a process pool
-	var work []shardJob
-	for _, s := range specs {
-		for k := 0; k < s.Shards[ti]; k++ {
-			work = append(work, shardJob{s, k, s.Shards[ti]})
-		}
-	}
-	// VERIF_SEED only changes scheduling order
-	if seed != 0 {
-		sort.SliceStable(work, func(a, b int) bool {
-			return hashDecisions([]int{seed, a})%97 < hashDecisions([]int{seed, b})%97
-		})
-	}
+	// ---- load once, then run frontier and subtree tasks of all harnesses on a pool of worker goroutines
 	pkgSet := map[string]bool{}
 	var pkgDirs []string
 	for _, s := range specs {
@@ -117,27 +106,133 @@ func runCheck(args []string) int {
 	}
 	prog, ssaPkgs, loadSec := loadProgram(pkgDirs)
 	active := activeKnown()
-	results := make([]*ShardResult, len(work))
+	type task struct {
+		h    int
+		item *workItem
+	}
+	var (
+		mu        sync.Mutex
+		cond      = sync.NewCond(&mu)
+		queue     []task
+		nPending  int
+		idle      int32
+		results   []*ShardResult
+		work      []shardJob
+		deadlines = make([]time.Time, len(specs))
+		tasksOf   = make([]int, len(specs))
+		dropped   = make([]int, len(specs))
+	)
+	for i := range specs {
+		queue = append(queue, task{h: i})
+		nPending++
+	}
+	if seed != 0 { // VERIF_SEED only changes the scheduling order
+		sort.SliceStable(queue, func(a, b int) bool {
+			return hashDecisions([]int{seed, queue[a].h})%97 < hashDecisions([]int{seed, queue[b].h})%97
+		})
+	}
 	var wg sync.WaitGroup
-	sem := make(chan struct{}, jobs)
-	for i := range work {
+	for w := 0; w < jobs; w++ {
 		wg.Add(1)
-		go func(i int) {
+		go func() {
 			defer wg.Done()
-			sem <- struct{}{}
-			defer func() { <-sem }()
-			j := work[i]
-			results[i] = exploreShard(prog, ssaPkgs[j.spec.Pkg], j.spec, ti, j.shard, j.n, active)
-		}(i)
+			var cur *Exec
+			curH := -1
+			flush := func() {
+				if cur != nil {
+					cur.finish()
+					cur.solver.Close()
+					mu.Lock()
+					results = append(results, cur.res)
+					work = append(work, shardJob{spec: specs[curH]})
+					mu.Unlock()
+					cur = nil
+				}
+			}
+			for {
+				mu.Lock()
+				for len(queue) == 0 && nPending > 0 {
+					atomic.AddInt32(&idle, 1)
+					cond.Wait()
+					atomic.AddInt32(&idle, -1)
+				}
+				if len(queue) == 0 {
+					mu.Unlock()
+					flush()
+					return
+				}
+				t := queue[0]
+				queue = queue[1:]
+				if t.item == nil {
+					deadlines[t.h] = time.Now().Add(time.Duration(specs[t.h].Timeout[ti]) * time.Second)
+				}
+				dl := deadlines[t.h]
+				mu.Unlock()
+				if time.Now().After(dl) {
+					mu.Lock()
+					dropped[t.h]++
+					nPending--
+					cond.Broadcast()
+					mu.Unlock()
+					continue
+				}
+				if curH != t.h {
+					flush()
+					cur = newExec(prog, ssaPkgs[specs[t.h].Pkg], specs[t.h], ti, active)
+					curH = t.h
+					th := t.h
+					cur.hungry = func() bool { return atomic.LoadInt32(&idle) > 0 }
+					cur.donate = func(items []workItem) {
+						mu.Lock()
+						for i := range items {
+							queue = append(queue, task{h: th, item: &items[i]})
+							nPending++
+						}
+						tasksOf[th] += len(items)
+						cond.Broadcast()
+						mu.Unlock()
+					}
+				}
+				fn := ssaPkgs[specs[t.h].Pkg].Func(specs[t.h].Func)
+				var front []workItem
+				if fn == nil {
+					cur.res.Error = "no function " + specs[t.h].Func
+					cur.res.Complete = false
+				} else {
+					it := t.item
+					if it == nil {
+						it = &workItem{}
+					}
+					front = cur.runTask(fn, it, dl)
+				}
+				mu.Lock()
+				for i := range front {
+					queue = append(queue, task{h: t.h, item: &front[i]})
+					nPending++
+				}
+				tasksOf[t.h] += len(front)
+				nPending--
+				cond.Broadcast()
+				mu.Unlock()
+			}
+		}()
 	}
 	wg.Wait()
+	for h, n := range dropped {
+		if n > 0 {
+			r := newShardResult(specs[h].Func, 0, 1)
+			r.Error = fmt.Sprintf("time limit: %d of %d subtree tasks not started", n, tasksOf[h])
+			results = append(results, r)
+			work = append(work, shardJob{spec: specs[h]})
+		}
+	}
 	exploreSec := time.Since(t0).Seconds() - loadSec
 
 	// ---- aggregate per harness
 	sums := map[string]*harnessSummary{}
 	var order []string
 	for _, s := range specs {
-		sums[s.Func] = &harnessSummary{Harness: s.Func, Pkg: s.Pkg, Solver: s.Solver, Desc: s.Desc, Shards: s.Shards[ti], Complete: true,
+		sums[s.Func] = &harnessSummary{Harness: s.Func, Pkg: s.Pkg, Solver: s.Solver, Desc: s.Desc, Shards: 0, Complete: true,
 			Known: map[string]int{}, Inconclusive: map[string]int{}, InconclusiveEx: map[string]string{}, Reach: map[string]int{}, knownW: map[string]Witness{},
 			Outside: s.Outside, Stubs: s.Stubs, Units: s.Units}
 		order = append(order, s.Func)
@@ -148,7 +243,9 @@ func runCheck(args []string) int {
 		h := sums[work[i].spec.Func]
 		solverVersions[work[i].spec.Solver] = true
 		if r.Error != "" {
-			h.Errors = append(h.Errors, fmt.Sprintf("shard %d/%d: %s", r.Shard, r.NShards, r.Error))
+			if len(h.Errors) < 4 {
+				h.Errors = append(h.Errors, r.Error)
+			}
 		}
 		if !r.Complete {
 			h.Complete = false
@@ -157,9 +254,7 @@ func runCheck(args []string) int {
 		h.Decisions += r.Decisions
 		h.Queries += r.Queries
 		h.SolverSec += r.SolverSec
-		if r.WallSec > h.WallSecMax {
-			h.WallSecMax = r.WallSec
-		}
+		h.WallSecMax += r.WallSec
 		h.Asserts += r.Asserts
 		h.Discharged += r.Discharged
 		h.Violations += r.ViolationCount
